@@ -117,16 +117,19 @@ def check_unicode_predicates(idx: Index, rep: Report) -> None:
     r = rep.rule("C07.R2", "the lexer dispatches to number lexing only on ASCII digits (str.isnumeric/isdigit/isdecimal are Unicode-wide; int()/float() and the token regexes are not)", floor=1)
     lex = idx.func(LEXER, "MLIRLexer.lex")
     found = False
-    for n in walk_local(lex.node):
-        if isinstance(n, ast.If) and any(call_attr(c) == "_lex_number" for c in calls_in(n)) and n.body and isinstance(n.body[0], ast.Return):
-            found = True
-            t = n.test
-            wide = [c for c in calls_in(t, local=False) if call_attr(c) in ("isnumeric", "isdigit", "isdecimal", "isalnum")]
-            asc = [c for c in calls_in(t, local=False) if call_attr(c) == "isascii"]
-            if wide and not (asc and isinstance(t, ast.BoolOp) and isinstance(t.op, ast.And)):
-                r.fail(lex.fq + ":number", Finding("C07.R2", lex.fq, f"unicode-digit-dispatch:{call_attr(wide[0])}", f"`{unparse(t)}` sends every Unicode numeric character (e.g. `²`, `٣`) to _lex_number; the resulting INTEGER_LIT/FLOAT_LIT text is passed to int()/float(), which raise ValueError for `²`", f"{LEXER}:{n.lineno}"))
-            else:
-                r.ok(lex.fq + ":number", f"{LEXER}:{n.lineno} `{unparse(t)}`")
+    for c_ in calls_in(lex.node):
+        if call_attr(c_) != "_lex_number":
+            continue
+        found = True
+        # what is known about the dispatching character where _lex_number is called
+        pos = [t_ for t_, p_ in guard_facts(lex.node, c_) if p_]
+        wide = [x for t_ in pos for x in calls_in(t_, local=False) if call_attr(x) in ("isnumeric", "isdigit", "isdecimal", "isalnum")]
+        asc = [x for t_ in pos for x in calls_in(t_, local=False) if call_attr(x) == "isascii"]
+        shown = " and ".join(unparse(t_) for t_ in pos if any(call_attr(x) in ("isnumeric", "isdigit", "isdecimal", "isalnum", "isascii") for x in calls_in(t_, local=False)))
+        if wide and not (asc and all(unparse(a_.func.value) == unparse(w_.func.value) for a_ in asc for w_ in wide)):  # type: ignore[attr-defined]
+            r.fail(lex.fq + ":number", Finding("C07.R2", lex.fq, f"unicode-digit-dispatch:{call_attr(wide[0])}", f"`{shown}` sends every Unicode numeric character (e.g. `²`, `٣`) to _lex_number; the resulting INTEGER_LIT/FLOAT_LIT text is passed to int()/float(), which raise ValueError for `²`", f"{LEXER}:{c_.lineno}"))
+        else:
+            r.ok(lex.fq + ":number", f"{LEXER}:{c_.lineno} `{shown}`")
     if not found:
         raise AnalysisError(f"{lex.fq}: dispatch to _lex_number not found")
     # letter predicates: recorded (a non-ASCII letter yields a BARE_IDENT token and later a diagnostic, not an internal error)
